@@ -34,6 +34,8 @@ func (s *FileSet) IsInSetSmart(name string) bool {
 	if name == "/" && s.SystemRoot {
 		return true
 	}
+	// the root itself is not one of its own children
+	isRoot := name == "/"
 	// check ...
 	level := 0
 	for level = 0; name != ""; level++ {
@@ -45,7 +47,7 @@ func (s *FileSet) IsInSetSmart(name string) bool {
 		}
 		name = dirname(name)
 	}
-	if level == 1 && s.Set["/*"] {
+	if level == 1 && !isRoot && s.Set["/*"] {
 		return true
 	}
 	if s.Set["/"] {
